@@ -449,6 +449,43 @@ pub fn targeted_family(k: usize) -> Vec<DiagSpec> {
             }
         }
     }
+    // gadget groups: k = 2..4 gadgets over the same support of size m = 1..3 (group fusion scalars depend on k),
+    // optionally one extra gadget on a strict subset of the support
+    for m in 1..=3usize {
+        for kk in 2..=4usize {
+            for extra in 0..2 {
+                for phs in [[(1i16, 4i16), (1, 4), (1, 4), (1, 4)], [(1, 4), (3, 4), (1, 2), (-1, 4)], [(1, 1), (1, 4), (0, 1), (1, 2)]] {
+                    if extra == 1 && m == 1 {
+                        continue;
+                    }
+                    let mut d = DiagSpec::empty();
+                    let ns: Vec<u8> = (0..m).map(|i| d.add(1, [(0, 1), (1, 4), (1, 2)][i % 3])).collect();
+                    for j in 0..kk {
+                        let h = d.add(1, (0, 1));
+                        let l = d.add(1, phs[j]);
+                        d.edges.push((h, l, true));
+                        for &x in &ns {
+                            d.edges.push((h, x, true));
+                        }
+                    }
+                    if extra == 1 {
+                        let h = d.add(1, (0, 1));
+                        let l = d.add(1, (1, 4));
+                        d.edges.push((h, l, true));
+                        for &x in &ns[..m - 1] {
+                            d.edges.push((h, x, true));
+                        }
+                    }
+                    for &x in &ns {
+                        let b = d.add(0, (0, 1));
+                        d.edges.push((x, b, false));
+                        d.outputs.push(b);
+                    }
+                    out.push(d);
+                }
+            }
+        }
+    }
     out
 }
 
